@@ -340,7 +340,7 @@ def evaluate(ctx, cases):
 def run(ctx):
     cases = corpus_cases()
     ctx.hist("corpus", len(cases))
-    n = ctx.n(6000, 200000)
+    n = ctx.n(40000, 400000)
     batch = 4000
     evaluate(ctx, cases)
     done = 0
